@@ -6,6 +6,7 @@ CONSTANTS
   Statuses = {200, 404}
   DropPts = {3}
   TmpOks = {TRUE}
+  MoveOks = {TRUE, FALSE}
   CacheOks = {TRUE}
   Kinds = {"sym", "file"}
   Pres = {FALSE}
